@@ -42,7 +42,7 @@ def _sign_local(func):
     """local assigned from `self.lhs.is_signed() and self.rhs.is_signed()`"""
     for n in walk_local(func.node):
         if isinstance(n, ast.Assign) and len(n.targets) == 1 and isinstance(n.targets[0], ast.Name) \
-                and isinstance(n.value, ast.BoolOp) and isinstance(n.value.op, ast.And):
+                and isinstance(n.value, ast.BoolOp):
             ts = sorted(norm(v) for v in n.value.values)
             if ts == ["self.lhs.is_signed()", "self.rhs.is_signed()"]:
                 return n.targets[0].id, n
@@ -58,6 +58,11 @@ def lw1(prog, rr):
     sign, sign_def = _sign_local(f)
     rr.require(sign is not None, "ExprBinModel.build: no local assigned from `self.lhs.is_signed() and self.rhs.is_signed()` "
                                  "(the both-signed flag that must select signed operators)")
+    rr.inst("both-signed flag: %s" % norm(sign_def.value))
+    if not isinstance(sign_def.value.op, ast.And):
+        rr.finding(f, sign_def, "ExprBinModel.build", "LW2: the flag that selects signed operators and sign extension is `%s`: an operation is signed only "
+                   "when BOTH operands are signed; with `or` an unsigned operand of a mixed comparison is sign-extended and compared as signed"
+                   % norm(sign_def.value), text="both-signed flag")
     table = {}
     for m in members:
         if m in EXCLUDED:
